@@ -136,6 +136,9 @@ Definition res := Eval vm_compute in
      (* a run outside WF / inside the known finding is reported as all-true *)
      let ms := if okb sc c out then ms else map (fun _ => true) ms in
      let ms2 := if okb sc c out && okb sc (out_final out) out2 then ms2 else map (fun _ => true) ms2 in
+     (* the fixpoint part of C03 over the two-run history (reported as an 11th entry of the second list) *)
+     let fx := negb (okb sc c out && okb sc (out_final out) out2) || c03_fixpoint c [(sc, out); (sc, out2)] in
+     let ms2 := ms2 ++ [fx] in
      if forallb (fun x => x) (ms ++ ms2) then [] else [(k, ms, ms2)]) (idx 0 cases).
 Print res.
 Definition stats := Eval vm_compute in
@@ -155,7 +158,7 @@ os.makedirs(d, exist_ok=True)
 open(d + "/f.v", "w").write(src)
 p = subprocess.run(["coqc", "-Q", THEORIES, "CliUtils", "f.v"], cwd=d, capture_output=True, text=True)
 out = p.stdout + p.stderr
-NAMES = ["C01", "C02", "C03", "C04", "C05", "C10", "C11", "C12", "C13", "C04obs"]
+NAMES = ["C01", "C02", "C03", "C04", "C05", "C10", "C11", "C12", "C13", "C04obs", "C03fixpoint"]
 if "Error" in out: print(out[-2000:])
 flat = " ".join(out.split())
 for m in re.finditer(r"\((\d+), \[([a-z; ]+)\], \[([a-z; ]+)\]\)", flat):
